@@ -549,7 +549,7 @@ def writer_init_contract(fmt):
                  Clause(delegated_ok, "rows-are-delegated-to-the-writer-of-the-cid's-format", props=["C14"]),
                  Clause("this._cid is cid and this._is_closed == False", "bound-to-the-given-cid", props=["C14"])] if supported else [Clause("False", "unsupported-format-has-no-writer")],
         raises={} if supported else {"NotImplementedError": []},
-        loops={0: LoopSpec(invariants=["resets_done == _i0"], havoc={"check": CHECK}, ghost_havoc={"resets_done": INT})},
+        loops={0: LoopSpec(invariants=["resets_done == _i0"], havoc={"check": CHECK}, ghost_havoc={"resets_done": INT}, match="self.cid.check_map.values()")},
         expect=["return"] if supported else ["NotImplementedError"], n_loops=1)
 
 
@@ -658,9 +658,10 @@ class WriterOracle(Oracle):
     POOL = [["1", "ab"], ["2", "c"], ["1", "zz"], ["x", "ab"], ["3"], ["4", "ab", "q"], ["5", "toolong"], ["6", ""]]
     def cases(self, ctx):
         k = 0
-        for fmt in ("delimited", "fixed"):
+        for fmt in ("delimited", "fixed", "fixed-crlf", "fixed-cr"):
             for header in (0, 1):
                 for n in range(0, 7 if ctx.thorough else 5):
+                    if fmt.startswith("fixed-") and n > 2: continue
                     for rows in itertools.product(range(len(self.POOL)), repeat=n):
                         k += 1
                         if n >= 3 and k % (3 if ctx.thorough else 11): continue
@@ -668,12 +669,12 @@ class WriterOracle(Oracle):
     def cid(self, fmt, header):
         from cutplace import interface
         if fmt == "delimited": text = "d,format,delimited\nd,header,%d\nf,id,,,1...3,Integer\nf,name,,x,...3\nc,u,IsUnique,id\n" % header
-        else: text = "d,format,fixed\nd,header,%d\nd,line delimiter,lf\nf,id,,,3,Integer\nf,name,,x,3\nc,u,IsUnique,id\n" % header
+        else: text = "d,format,fixed\nd,header,%d\nd,line delimiter,%s\nf,id,,,3,Integer\nf,name,,x,3\nc,u,IsUnique,id\n" % (header, {"fixed": "lf", "fixed-crlf": "crlf", "fixed-cr": "cr"}[fmt])
         return interface.create_cid_from_string(text)
     def check(self, c):
         from cutplace import validio, errors
-        fmt, header, idx = c
-        cid = self.cid(fmt, header)
+        fmt0, header, idx = c
+        cid = self.cid(fmt0, header); fmt = "fixed" if fmt0.startswith("fixed") else fmt0; sep = {"delimited": "\r\n", "fixed": "\n", "fixed-crlf": "\r\n", "fixed-cr": "\r"}[fmt0]
         list(validio.rows(cid, io.StringIO("1,ab\n" if fmt == "delimited" and header == 0 else ""), on_error="continue"))   # earlier use of the same CID must not matter (C08)
         out = io.StringIO(); w = validio.Writer(cid, out)
         accepted = []; seen = set(); pos = 0
@@ -695,12 +696,12 @@ class WriterOracle(Oracle):
             if obs:
                 pos += 1
                 if not is_header: seen.add(row[0]); accepted.append(row)
-                exp_text = (",".join(row) + "\r\n") if fmt == "delimited" else ("".join(x.ljust(3) for x in row) + "\n")
+                exp_text = (",".join(row) + sep) if fmt == "delimited" else ("".join(x.ljust(3) for x in row) + sep)
                 if out.getvalue() != before + exp_text: return {"expected": repr(exp_text), "observed": repr(out.getvalue()[len(before):])}
         try: w.close()
         except errors.DataError as e: return {"expected": "close without error", "observed": repr(e)}
         # read back under a freshly loaded CID
-        try: back = list(validio.rows(self.cid(fmt, header), io.StringIO(out.getvalue())))
+        try: back = list(validio.rows(self.cid(fmt0, header), io.StringIO(out.getvalue())))
         except errors.DataError as e: return {"expected": "output validates again", "observed": "%s (text %r)" % (e, out.getvalue())}
         want = [[x.ljust(3) for x in r] for r in accepted] if fmt == "fixed" else accepted
         return None if back == want else {"expected": want, "observed": back}
